@@ -4,10 +4,10 @@ import (
 	"fmt"
 	"math/rand"
 	"os"
-	"time"
 	"regexp"
 	"strconv"
 	"strings"
+	"time"
 )
 
 // Properties decided over repository histories: C01 (soundness), C08 (refresh all-or-nothing, sequential part),
@@ -184,6 +184,8 @@ func repoOracles(r *Run, focus string, idx int, cfg repoCfg, steps []repoStep, w
 		}
 	}
 	served := map[int]repoOp{}
+	failedVerify := map[int]int{}  // loc -> number of the served document whose refresh just failed signature verification
+	vouched := map[int]int{}       // loc -> that number, once a connection for the location presented the document's signer
 	createdWith := map[int][]int{} // loc -> candidates presented by the handshake that made the location known
 	viol := func(prop, sig, detail string) {
 		if prop == focus {
@@ -205,6 +207,9 @@ func repoOracles(r *Run, focus string, idx int, cfg repoCfg, steps []repoStep, w
 		switch o.Kind {
 		case "hs":
 			note(o.CDP, o.Cands)
+			if sv, has := served[o.CDP]; has && sv.Served == "doc" && failedVerify[o.CDP] == sv.Doc.Number && containsInt(o.Cands, sv.Doc.Signer) {
+				vouched[o.CDP] = sv.Doc.Number
+			}
 		case "provision":
 			note(o.Loc, o.Cands)
 		}
@@ -285,6 +290,17 @@ func repoOracles(r *Run, focus string, idx int, cfg repoCfg, steps []repoStep, w
 				if sv.Served == "doc" && cfg.Sig == "verify" && sv.Doc.Signer == signerOf(w, loc, p.num) && !(e.loaded && e.num == sv.Doc.Number) {
 					viol("C08", "successful-refresh-not-installed", fmt.Sprintf("loc %d: CRL #%d by the same signer not installed (now %d)", loc, sv.Doc.Number, e.num))
 				}
+				// a refresh that failed verification, then a connection presenting the right signer (which replaces the stored signer
+				// certificate), then the same document again: this refresh is a successful one and must take effect
+				if sv.Served == "doc" && cfg.Sig == "verify" && vouched[loc] == sv.Doc.Number && !(e.loaded && e.num == sv.Doc.Number) {
+					viol("C08", "refresh-after-failed-verification-not-installed", fmt.Sprintf("loc %d: CRL #%d failed verification at the previous refresh, its signer %d was presented by a later connection, the next refresh did not install it (now %d)", loc, sv.Doc.Number, sv.Doc.Signer, e.num))
+				}
+				if sv.Served == "doc" && cfg.Sig == "verify" && e.loaded && e.num == p.num && p.num != sv.Doc.Number && sv.Doc.Signer != 9 {
+					failedVerify[loc] = sv.Doc.Number
+				} else {
+					delete(failedVerify, loc)
+				}
+				delete(vouched, loc)
 			}
 		}
 		if o.Kind == "provision" && strings.HasPrefix(st.Obs, "ok") {
